@@ -7,5 +7,6 @@ python3 translate/rs2coq.py /repo coq/gen || true
 ( cd coq && coq_makefile -f _CoqProject -o Makefile >/dev/null 2>&1 && timeout 3000 make -k -j16 >/dev/null 2>&1 || true )
 ( cd harness && cargo build --release --offline >/dev/null 2>&1 || true )
 ( cd harness && sh real/build.sh >/dev/null 2>&1 || true )
+( cd harness && sh real/build_asan.sh >/dev/null 2>&1 || true )
 for d in driver driver/pipein driver/pipe driver/syncfut driver/l2; do [ -f $d/build.sh ] && ( sh $d/build.sh >/dev/null 2>&1 || true ); done
 echo setup done
